@@ -93,6 +93,11 @@ def solve(A, y, fn, cond_limit):
         raise IllConditioned("no free clp")
     if A.shape[0] < A.shape[1]:
         raise IllConditioned("underdetermined")
+    cn = np.linalg.norm(A, axis=0)
+    if cn.min() < 1e-100 or cn.max() > 1e100:
+        # columns whose squared norm leaves the double range (an optimiser step to a rate where the basis function underflows):
+        # no statement is made about linear problems that cannot be represented
+        raise IllConditioned(f"column norm {cn.min():.1e} .. {cn.max():.1e}")
     sv = np.linalg.svd(A, compute_uv=False)
     if sv[-1] <= 0 or sv[0] / sv[-1] > cond_limit:
         raise IllConditioned(f"cond {sv[0] / max(sv[-1], 1e-300):.1e}")
